@@ -125,6 +125,9 @@ func (colorizeToolS) echoResetColor(out io.Writer) { //nolint:unused //no
 //
 
 func (colorizeToolS) translate(str string, initialColor ...color.Color) string {
+	if !strings.ContainsAny(str, "<&") {
+		return str // no markup: keep the text (and its leading blanks) as it is
+	}
 	clr := color.FgDefault
 	for _, c := range initialColor {
 		clr = c
@@ -200,6 +203,9 @@ func (colorizeToolS) restLines(str string) (ret string, eol bool) { //nolint:unu
 }
 
 func (colorizeToolS) splitFirstAndRestLines(str string) (firstLine, restLines string, eol bool) {
+	if strings.ContainsRune(str, '\r') { // CR LF and a lone CR are line breaks, never part of a line
+		str = strings.NewReplacer("\r\n", "\n", "\r", "\n").Replace(str)
+	}
 	if str != "" {
 		eol = str[len(str)-1] == '\n'
 		if eol {
